@@ -795,7 +795,11 @@ func (x *exec) checkIsolatedStops(r *sup.CaseResult, ck *checker, all bool) {
 		}
 		atRest := func() bool { // nobody inside the library is doing anything: only parked goroutines
 			for _, g := range dumpAll() {
-				if hasFrame(g, "github.com/goatcms/goatcore/") && !parked(g) {
+				if !hasFrame(g, "github.com/goatcms/goatcore/") {
+					continue
+				}
+				waiting := parked(g) || strings.HasPrefix(g.state, "select") || strings.HasPrefix(g.state, "chan receive") || strings.HasPrefix(g.state, "chan send")
+				if !waiting {
 					return false
 				}
 			}
